@@ -5,7 +5,8 @@ from ..common import *
 from .. import proofgate, composer, protocol
 
 THEOREMS = ["C05_row_evaluator_exact", "C05_roots_all_zero", "C05_components_imply_combined",
-            "C05_combined_implies_components", "C05_grand_product_closes", "C05_vanishing_iff_divisible", "C05_degree_test"]
+            "C05_combined_implies_components", "C05_grand_product_closes", "C05_vanishing_iff_divisible", "C05_degree_test",
+            "C05_numerator_zero_on_domain", "C05_perm_closing_iff", "C05_blinded_at_domain"]
 
 def expected_outcome(snapA, snapB):
     """model-side verdict: (kind, detail). Rows are A's selectors evaluated on
@@ -38,11 +39,11 @@ def run(ck):
     S = protocol.Script()
     S.cmd("pp", "pp", 1 << 10, 3)
     cases = []   # (id, nameA, nameB, prove cmd, verify cmd or None, tag)
-    def add_case(tag, bodyA, bodyB):
+    def add_case(tag, bodyA, bodyB, pp="pp"):
         i = len(cases)
         a, b = f"A{i}", f"B{i}"
         S.circuit(a, bodyA); S.circuit(b, bodyB)
-        c1 = S.cmd("compile", f"k{i}", "pp", "6c", a)
+        c1 = S.cmd("compile", f"k{i}", pp, "6c", a)
         c2 = S.cmd("prove", f"p{i}", f"k{i}", b, 5 + i)
         c3 = S.cmd("verify", f"k{i}", f"p{i}", "=")
         c4 = S.cmd("snapshot", a); c5 = S.cmd("snapshot", b)
@@ -105,6 +106,15 @@ def run(ck):
     for k in (range(0, 14) if quick else range(0, 40)):
         L = ["w " + hx(rng.small()), "w " + hx(rng.small())] + ["gmul 1 0 0 0 0 3 - $0 $1 0 0"] * k
         add_case("satisfied, size %d" % (4 + k), L, L)
+    # beyond every parallel threshold of the kernels: more than 2^12 gates (domain 2^13), satisfied and with
+    # one witness overridden, under the default pool and under a pool of 3 workers
+    S.cmd("pp", "ppL", (1 << 13) + 8, 3)
+    big = ["w " + hx(rng.small()), "w " + hx(rng.small())] + ["gmul 1 0 0 0 0 3 - $0 $1 0 0"] * (4100 if quick else 4100 + rng.randrange(3000))
+    add_case("satisfied, more than 2^12 gates (default pool)", big, big, pp="ppL")
+    S.cmd("threads", 3)
+    add_case("satisfied, more than 2^12 gates (pool of 3)", big, big, pp="ppL")
+    add_case("witness overridden at end, more than 2^12 gates", big, big + ["setw 7 " + hx(rng.scalar())], pp="ppL")
+    S.cmd("threads", 0)
     # structured violations: every user row violated by r(w^i) for a low-degree remainder r
     # vanishing on the four rows of Composer::initialized() (the degree test must still fire)
     W32 = 0x16a2a19edfe81f20d09b681922c813b4b63683508c2280b93829971f439f0d2b
@@ -162,7 +172,7 @@ def run(ck):
             ck.violation(f"prover returned a proof that fails verification ({tag}): {res[c3]}",
                          {"failing_input_found": True, "compiled_circuit": S.circuits[a], "instance": S.circuits[b]}, key="returned-bad-proof")
     return ck.finish(level="proof",
-        rule="layouts: random gadget mixes, raw rows with random selector combinations (incl. 16-row full domains whose last row reads row 0), rows carrying a (zero / non-zero) public input with the arithmetic selector on or off, gadget ending at the domain end; instances: satisfying, one witness overridden, different wiring breaking a compiled copy constraint with every row satisfied, wrong size; verdict of the extracted row evaluator on (compiled selectors, instance wires) + copy-class check vs Prover::prove; every returned proof is verified",
+        rule="layouts: random gadget mixes, one circuit of more than 2^12 gates (default pool and pool of 3), raw rows with random selector combinations (incl. 16-row full domains whose last row reads row 0), rows carrying a (zero / non-zero) public input with the arithmetic selector on or off, gadget ending at the domain end; instances: satisfying, one witness overridden, different wiring breaking a compiled copy constraint with every row satisfied, wrong size; verdict of the extracted row evaluator on (compiled selectors, instance wires) + copy-class check vs Prover::prove; every returned proof is verified",
         assumptions=["the degree test is exact (C05_degree_test) given that the 8n coset points are distinct and off the domain (checked by the kernels tie of C19, not proved for every n) and that the numerator has fewer than 8n coefficients",
                      "challenges avoid the bounded bad sets of the separation theorem"],
         checker_cmd=proofgate.CHECKER_CMD, trusted_base=proofgate.TRUSTED)
